@@ -7,7 +7,7 @@ from common import hx
 from eth_hash.auto import keccak
 
 ID = "C05"
-LEAN_IMPORTS = ["PyTrie.Props.C05", "PyTrie.Props.C05Batch", "PyTrie.Props.NonVacuity", "PyTrie.Props.FreeExec"]
+LEAN_IMPORTS = ["PyTrie.Props.C05", "PyTrie.Props.C05Batch", "PyTrie.Props.NonVacuity", "PyTrie.Props.FreeExec", "PyTrie.Props.NonVacuity5"]
 THEOREMS = [
     "PyTrie.Props.C05.abort_restores_world",
     "PyTrie.Props.C05.batch_ops_leave_base",
@@ -44,6 +44,14 @@ THEOREMS = [
     "PyTrie.Props.Free.np_view_complete_batch_op",
     "PyTrie.Props.Free.np_complete_after_commit",
     "PyTrie.Props.Free.history_lockstep",
+    "PyTrie.Props.NonVacuity5.good_p",
+    "PyTrie.Props.NonVacuity5.good_np",
+    "PyTrie.Props.NonVacuity5.lockstep_witness_p",
+    "PyTrie.Props.NonVacuity5.lockstep_witness_np",
+    "PyTrie.Props.NonVacuity5.outcomes_p",
+    "PyTrie.Props.NonVacuity5.final_db",
+    "PyTrie.Props.NonVacuity5.aborted_block_noop_p",
+    "PyTrie.Props.NonVacuity5.aborted_block_noop_np",
 ]
 RULE = ("prior history, then squash_changes blocks with every exit kind: normal, an exception after n of the "
         "block's operations (every n), and - for non-pruning tries - the n-th database write of the commit failing "
